@@ -14,7 +14,7 @@ import (
 func init() {
 	register(&Prop{
 		ID:         "C05",
-		Decided:    "(1) the synchronous (processDirectDataSync) and asynchronous (processDirectData) paths are the same pipeline: enrichData -> applyWhereAndAnalytic -> projectDirectRow -> delivery, each stage dominating the next and fed with the previous stage's output, and the only other module calls on the way are the frozen async extras; (2) rows are received from the input buffer only by the single processing goroutine (and the expansion migration), synchronous sinks are invoked inline in slice order (no go / channel hand-off in that loop); (3) a row rejected by WHERE produces nothing: applyWhereAndAnalytic returns keep=false whenever the predicate is false, and projection/delivery are reached only under keep=true; (4) the caller's row is not written (shared with C20, ownmap). Also: the evaluation methods of the shared predicate/expression objects (condition.ExprCondition, expr.Expression) keep no per-evaluation state in the object (no store through the receiver, no receiver-owned address handed to code outside the module). Also: every receive from Stream.dataChan holds dataChanMux (a consumer cannot take a row out of the middle of a buffer migration); no delivered row and no result returned by EmitSync is the caller's own map. Also: in package functions a failing run of a program obtained from the bridge's process-wide compile cache (compiled against another row's value types) is always followed by the evaluation against the row itself (expr.Eval) before an error is returned (flow/cached-program-failure-falls-back). Also: no struct type and no package-level variable of the module holds an expr-lang vm.VM (ownmap/no-retained-vm): the run-time state of one evaluation is never kept in an object shared by concurrent evaluations or by all instances of the process.",
+		Decided:    "(1) the synchronous (processDirectDataSync) and asynchronous (processDirectData) paths are the same pipeline: enrichData -> applyWhereAndAnalytic -> projectDirectRow -> delivery, each stage dominating the next and fed with the previous stage's output, and the only other module calls on the way are the frozen async extras; (2) rows are received from the input buffer only by the single processing goroutine (and the expansion migration), synchronous sinks are invoked inline in slice order (no go / channel hand-off in that loop); (3) a row rejected by WHERE produces nothing: applyWhereAndAnalytic returns keep=false whenever the predicate is false, and projection/delivery are reached only under keep=true; (4) the caller's row is not written (shared with C20, ownmap). Also: the evaluation methods of the shared predicate/expression objects (condition.ExprCondition, expr.Expression) keep no per-evaluation state in the object (no store through the receiver, no receiver-owned address handed to code outside the module). Also: every receive from Stream.dataChan holds dataChanMux (a consumer cannot take a row out of the middle of a buffer migration); no delivered row and no result returned by EmitSync is the caller's own map. Also: in package functions a failing run of a program obtained from the bridge's process-wide compile cache (compiled against another row's value types) is always followed by the evaluation against the row itself (expr.Eval) before an error is returned (flow/cached-program-failure-falls-back). Also: no struct type and no package-level variable of the module holds an expr-lang vm.VM (ownmap/no-retained-vm): the run-time state of one evaluation is never kept in an object shared by concurrent evaluations or by all instances of the process. Also: no field of the per-query compiled information (the elements of Stream.compiledFieldInfo / compiledExprInfo) is both written and read on the per-row path (whomay/compiled-info-not-steered-by-rows): a counter that switches the evaluation strategy makes a row's value depend on earlier rows.",
 		NotDecided: "projection values (aliases, nested paths, *), that the result contains exactly the selected columns, history independence of expression caches, order under the asynchronous worker pool (documented as unordered).",
 		Run:        runC05,
 	})
